@@ -287,6 +287,8 @@ func namesTables(c *Ctx, required []string, exact bool, withDefaults bool) {
 		{"a parameter named like a package imported later", []addStep{{"ka", intF, ""}, {"x", leaf("ka"), ""}}, []int{1}},
 		{"a parameter named like a package imported earlier", []addStep{{"x", leaf("ka"), ""}, {"ka", intF, ""}}, []int{0}},
 		{"a parameter named like the package of its own type", []addStep{{"ka", leaf("ka"), ""}}, nil},
+		{"a parameter named like a package, then an unnamed value whose default name is that package's name too", []addStep{{"kt", intF, ""}, {"", func() ktype { return kNamedIn(kpath("kt"), "kt", "Kt", nil, nil) }, ""}}, nil},
+		{"an unnamed value whose default name is its package's name, then a parameter named like that package", []addStep{{"", func() ktype { return kNamedIn(kpath("kt"), "kt", "Kt", nil, nil) }, ""}, {"kt", intF, ""}}, nil},
 		{"a result named like a package imported by a parameter", []addStep{{"x", leaf("ka"), ""}, {"ka", intF, "Out"}}, []int{0}},
 		{"distinct written names", []addStep{{"a", intF, ""}, {"b", strT, ""}, {"c", leaf("ka"), ""}}, []int{0, 1, 2}},
 		{"a parameter named like a package that only a result's type imports", []addStep{{"ka", intF, ""}, {"", leaf("ka"), "Out"}}, nil},
@@ -513,6 +515,10 @@ func namesTables(c *Ctx, required []string, exact bool, withDefaults bool) {
 		{"map[string]unsafe.Pointer", &interp.Opaque{Kind: "types.Type", ID: "m3", GoType: "*go/types.Map", Methods: mmap{"Key": tmeth(strT()), "Elem": tmeth(nBasic("Pointer", 0, types.UnsafePointer))}}, "stringToPointer"},
 		{"chan unsafe.Pointer", kElem("*go/types.Chan", nBasic("Pointer", 0, types.UnsafePointer)), "pointerCh"},
 		{"chan int", kElem("*go/types.Chan", i()), "intCh"},
+		{"[]chan int (suffixes from the inside out)", kElem("*go/types.Slice", kElem("*go/types.Chan", i())), "intChs"},
+		{"chan []string", kElem("*go/types.Chan", kElem("*go/types.Slice", strT())), "stringsCh"},
+		{"[][]int", kElem("*go/types.Slice", kElem("*go/types.Slice", i())), "intss"},
+		{"map[string][]chan int", &interp.Opaque{Kind: "types.Type", ID: "m4", GoType: "*go/types.Map", Methods: mmap{"Key": tmeth(strT()), "Elem": tmeth(kElem("*go/types.Slice", kElem("*go/types.Chan", i())))}}, "stringToIntChs"},
 		{"chan *MyType", kElem("*go/types.Chan", kElem("*go/types.Pointer", myT())), "myTypeCh"},
 		{"*MyType", kElem("*go/types.Pointer", myT()), "myType"},
 		{"**int", kElem("*go/types.Pointer", kElem("*go/types.Pointer", i())), "n"},
